@@ -389,8 +389,11 @@ class HttpParser(abc.ABC, Generic[_MsgT]):
                     self.max_field_size if self._lines else self.max_line_size
                 )
                 pos = data.find(SEP, start_pos)
-                # consume \r\n
-                if pos == start_pos and not self._lines:
+                # consume \r\n (the lax parser splits at LF: CR is in the line)
+                if not self._lines and (
+                    pos == start_pos
+                    or (SEP == b"\n" and data.startswith(b"\r\n", start_pos))
+                ):
                     start_pos = pos + len(SEP)
                     continue
 
